@@ -80,6 +80,9 @@ CHECKS = {
         "runs": [
             {"harnesses": [H + "ZZH6Pretty"], "flags": VLQ_REDIRECT, "quick": dict(GEN_Q, trivia=0, indents=2), "thorough": dict(GEN_Q, trivia=0, indents=6)},
             {"harnesses": [H + "ZZH6Pretty"], "flags": VLQ_REDIRECT, "quick": dict(GEN_Q, budget=1, trivia=1, indents=1, triviakinds=5), "thorough": dict(GEN_Q, trivia=1, indents=1, triviakinds=3)},
+            # statement structure with palette leaves (object/function values, groups, signs, multi-line backtick strings)
+            {"harnesses": [H + "ZZH6Pretty"], "flags": VLQ_REDIRECT, "quick": {"budget": 0, "stmts": 3, "palette": 12, "nofunc": 1, "trivia": 0, "indents": 2}, "thorough": {"budget": 1, "stmts": 2, "palette": 6, "maxlist": 1, "nofunc": 1, "trivia": 0, "indents": 1}},
+            {"harnesses": [H + "ZZH6Pretty"], "flags": VLQ_REDIRECT, "quick": {"budget": 1, "stmts": 1, "palette": 6, "maxlist": 1, "nofunc": 1, "trivia": 0, "indents": 1}, "thorough": dict(PAL_T, trivia=0, indents=1)},
         ],
     },
     "C07": {
@@ -158,6 +161,8 @@ CHECKS = {
         "assumptions": SCRIPT_ASSUME,
         "runs": [
             {"harnesses": [H + "ZZH11Total"], "flags": VLQ_REDIRECT, "quick": {"T": 2}, "thorough": {"T": 3}},
+            # the same after an earlier plugin-configured job in the same process (history clause of totality)
+            {"harnesses": [H + "ZZH11Total"], "flags": VLQ_REDIRECT + ["-max-steps", "200000"], "quick": {"T": 1, "prelude": 1}, "thorough": {"T": 2, "prelude": 1}},
         ],
     },
     "C12": {
